@@ -20,6 +20,7 @@ def main():
     inp, outp = sys.argv[1], sys.argv[2]
     job = json.load(open(inp))
     import dsl, recipes
+    dsl.FACTORY_DENSITY = bool(job.get('factory_density'))
     from pyplate.pyplate import config
     out = {'config': {'mol': config.moles_storage_unit, 'vol': config.volume_storage_unit, 'precision': config.internal_precision},
            'progs': [], 'recipes': []}
